@@ -410,6 +410,8 @@ def handle (op : String) (args : List String) : Option String :=
   match op with
   | "c06.doc" => do
       let (s, _) ← run (do let _ ← tok; pScene) args
+      -- every scene the harness builds exists in Go: it must satisfy the hypothesis of gltf_panic_only_if
+      if !Representable s then pure "unrepresentable" else
       match writeSceneT s with
       | .ok w => pure (" ".intercalate (docToks w.doc))
       | .err _ => pure "err"
